@@ -33,14 +33,8 @@ THEOREMS = [
 ]
 LEVEL = "proof"
 
-POSITIONS = [[], ["a"], ["a", "b"], ["a", "b", "c"], ["a", "d"], ["e"]]
+POSITIONS = [[], ["a"], ["a", "b"], ["a", "b", "c"], ["a", "d"], ["e"], ["a", "b", "a"]]
 KINDS = ["enum", "record", "interface"]
-
-
-def wrap(ns, body):
-    for part in reversed(ns):
-        body = f"namespace {part} {{ {body} }}"
-    return body
 
 
 def decl_text(kind, name):
@@ -62,20 +56,52 @@ def placement_cases():
     for k in (1, 2, 3):
         for places in itertools.combinations(range(len(POSITIONS)), k):
             pl = [POSITIONS[i] for i in places]
-            for site in POSITIONS:
-                for sp in spellings(pl):
-                    cases.append((pl, site, sp))
+            sp = spellings(pl)
+            for rot in range(len(sp)):
+                cases.append((pl, rot))
     return cases
 
 
-def build(pl, site, sp, order, split):
-    """order: reference first / last; split: declarations in an imported file"""
-    decls = [wrap(ns, decl_text(KINDS[i % 3], "x")) for i, ns in enumerate(pl)]
-    ref = wrap(site, f"holder = record {{ f: {sp}; g: list<{sp}>; }}")
+def emit_tree(items, r, order):
+    """items: [(ns, text)] -> text with a namespace tree: blocks shared by everything with the same prefix,
+    inner blocks first (so declarations follow an inner closing brace), dotted merging of single chains."""
+    root = {"own": [], "kids": {}}
+    for ns, text in items:
+        node = root
+        for part in ns:
+            node = node["kids"].setdefault(part, {"own": [], "kids": {}})
+        node["own"].append(text)
+
+    def go(node):
+        parts = []
+        kids = list(node["kids"].items())
+        own = list(node["own"])
+        if order == 0:
+            own.reverse()
+        for name, child in kids:
+            while not child["own"] and len(child["kids"]) == 1 and r.random() < 0.5:
+                nxt, cc = next(iter(child["kids"].items()))
+                name, child = name + "." + nxt, cc
+            parts.append(f"namespace {name} {{ {go(child)} }}")
+        if r.random() < 0.7:
+            return " ".join(parts + own)
+        return " ".join(own + parts)
+    return go(root)
+
+
+def build(pl, rot, order, split, r):
+    """one holder record at every namespace position, each with two differently spelled references;
+    order: holders before/after the declarations inside a block; split: declarations in an imported file"""
+    sp = spellings(pl)
+    decls = [(ns, decl_text(KINDS[i % 3], "x")) for i, ns in enumerate(pl)]
+    holders = []
+    for i, site in enumerate(POSITIONS):
+        s1, s2 = sp[(rot + i) % len(sp)], sp[(rot + 3 * i + 1) % len(sp)]
+        holders.append((site, f"h{i} = record {{ f: {s1}; g: list<{s2}>; }}"))
     if split:
-        return {"/w/m.djinni": '@import "lib.djinni"\n' + ref, "/w/lib.djinni": "\n".join(decls)}
-    parts = [ref] + decls if order == 0 else decls + [ref]
-    return {"/w/m.djinni": "\n".join(parts)}
+        return {"/w/m.djinni": '@import "lib.djinni"\n' + emit_tree(holders, r, order), "/w/lib.djinni": emit_tree(decls, r, order)}
+    items = holders + decls if order == 0 else decls + holders
+    return {"/w/m.djinni": emit_tree(items, r, order)}
 
 
 def run(ctx):
@@ -85,12 +111,13 @@ def run(ctx):
     allc = placement_cases()
     r = random.Random(f"{ctx.seed}/c04")
     if ctx.quick:
-        allc = r.sample(allc, 900)
+        allc = r.sample(allc, min(700, len(allc)))
     todo = []
-    for (pl, site, sp) in allc:
+    for (pl, rot) in allc:
         variants = [(0, False), (1, False), (0, True)] if not ctx.quick else [r.choice([(0, False), (1, False), (0, True)])]
         for order, split in variants:
-            todo.append({"files": build(pl, site, sp, order, split), "root": "/w/m.djinni", "meta": ("place", tuple(map(tuple, pl)), tuple(site), sp, order, split)})
+            todo.append({"files": build(pl, rot, order, split, random.Random(f"{ctx.seed}/c04/{pl}/{rot}/{order}/{split}")), "root": "/w/m.djinni",
+                         "meta": ("place", tuple(map(tuple, pl)), rot, order, split)})
     # duplicates: same qualified name twice / a built-in name / across files
     for dup in ["x = enum { a; }\nx = record { }", "namespace a { x = enum { a; } }\nnamespace a { x = interface { } }",
                 "list = enum { a; }", "namespace a { i32 = record { } }\nr = record { f: a.i32; g: i32; }", "a.b = enum { k; }"]:
